@@ -13,13 +13,16 @@ CONSTANTS
   LocalpSet = {0}
   GasSet = {200000}
   FeeSet = {0, 499, 500}
+  Stranger = "x1"
+  DeliverSet = {}
   Poor = {}
   PoorBal = 0
   RichBal = 1000
   Depth2 = TRUE
   Pairs = TRUE
+  GrantUsed <- GrantU_report
 SPECIFICATION Spec
 VIEW View
 INVARIANTS TypeOK ExemptSound ExemptComplete
-PROPERTIES NoFreeRide EntitledNeverCharged PaidRule ClassSplit CheckPure SignerRule
+PROPERTIES NoFreeRide EntitledNeverCharged EntitledAdmitted PaidRule ClassSplit CheckPure SignerRule
 CHECK_DEADLOCK FALSE
